@@ -104,14 +104,23 @@ def match_weeknday(d, months=(1, 12)):
     d.reach()
 
 
+def range_sig(date, start, end):
+    """what identifies an open-ended-range finding: which limit is unspecified, and whether the
+    date sits exactly on a specific limit (then an off-by-one at that limit is the other suspect)"""
+    su, eu = R.is_unspecified(start), R.is_unspecified(end)
+    on_limit = (not su and date[:3] == start[:3]) or (not eu and date[:3] == end[:3])
+    return dict(start_unspecified=su, end_unspecified=eu, on_limit=on_limit, date=date, start=start, end=end)
+
+
 def _range_verdict(d, date, start, end, got, kind):
     want = R.match_date_range(date, start, end)
     if bool(got) != want:
-        # d.flag: an open (known) finding on open-ended ranges must not hide the rest
-        open_ended = R.is_unspecified(start) or R.is_unspecified(end)
-        d.flag(True, "date-range-open-ended" if open_ended else kind,
-               start_unspecified=R.is_unspecified(start), end_unspecified=R.is_unspecified(end),
-               date=date, start=start, end=end, got=got, want=want)
+        # d.flag: an open (known) finding on open-ended ranges must not hide the rest.  The
+        # open-ended kind is used only where the unspecified limit is what decides: the date
+        # belongs to the range and does not sit on the specific limit.
+        sig = range_sig(date, start, end)
+        open_ended = want and (sig['start_unspecified'] or sig['end_unspecified']) and not sig['on_limit']
+        d.flag(True, "date-range-open-ended" if open_ended else kind, got=got, want=want, **sig)
 
 
 @meta(bounds=DATE_BOUNDS + "; start / end date per instance either wholly unspecified (FF FF FF FF) or any specific "
@@ -169,9 +178,12 @@ def sym_code(d, name, lo, hi):
 
 
 def draw_time(d, p, res='hm'):
-    """res 'hm': hour and minute symbolic; 'h': hour symbolic, on the hour"""
+    """res 'hm': hour and minute symbolic; 'h': hour symbolic, on the hour; 'm': minute
+    symbolic, within the hour after noon"""
     if res == 'h':
         return (d.int(0, 23, p + 'h'), 0, 0, 0)
+    if res == 'm':
+        return (12, d.int(0, 59, p + 'm'), 0, 0)
     return (d.int(0, 23, p + 'h'), d.int(0, 59, p + 'm'), 0, 0)
 
 
@@ -327,10 +339,6 @@ def plain(x):
     return getattr(x, 'value', x)
 
 
-def open_ended(cfg):
-    return R.is_unspecified(cfg['eff'][0]) or R.is_unspecified(cfg['eff'][1])
-
-
 EVAL_BOUNDS = ("one schedule per path inside the instance's shape: exc = exception entries as (period kind, number "
                "of time-values); period content symbolic around the evaluated day (date pattern / weekNDay: day-of-week "
                "octet over {1..7, FF}; date range: both limits within one day of it; calendar reference: calendar object "
@@ -366,8 +374,10 @@ def eval_ref(d, days, exc, nweek, eff='wide', prio='sym', res='hm', stale='insta
         d.reach()
         return
     if res is None:
-        d.flag(True, "date-range-open-ended" if open_ended(cfg) else "eval-inactive-inside-period",
-               where="effectivePeriod", date=date, eff=cfg['eff'])
+        sig = range_sig(date, cfg['eff'][0], cfg['eff'][1])
+        oe = (sig['start_unspecified'] or sig['end_unspecified']) and not sig['on_limit']
+        d.flag(True, "date-range-open-ended" if oe else "eval-inactive-inside-period",
+               where="effectivePeriod", **sig)
         d.reach()
         return
     got, nxt = plain(res[0]), plain(res[1])
@@ -428,15 +438,28 @@ def install_clock(d, candidates):
         S._mktime = _real_time.mktime
 
 
+def draw_second_of_day(d, res, p):
+    if res == 'h':
+        return 3600 * d.int(0, 23, p + 'hour')
+    if res == 'm':
+        return 12 * 3600 + 60 * d.int(0, 59, p + 'minute')
+    if res == 'hm':
+        return 60 * d.int(0, 1439, p + 'minute')
+    if res == 's':
+        return d.int(0, 86399, p + 'second')
+    raise AssertionError(res)
+
+
 # first day of the window: leap -> Wed 2024-02-28, Thu 02-29, Fri 03-01, ... (month end in a leap
 # year); newyear -> Sat 2023-12-30, Sun 12-31, Mon 2024-01-01, ... (year end, weekly index 7 -> 1)
 BASES = {'leap': (124, 2, 28, 3), 'newyear': (123, 12, 30, 6)}
 FAR_PAST = (0, 1, 1, 1)
 FAR_FUTURE = (254, 12, 31, 2)
 
-RUN_BOUNDS = ("window of days starting at `base` (leap: 2024-02-28, newyear: 2023-12-30); start instant symbolic "
-              "(in units of `res`: h = hours, hm = minutes, s = seconds) anywhere in window days start_days[0]..start_days[1]; "
-              "probe instant symbolic 0..span days after the start; effective period per `edge` relative to the window "
+RUN_BOUNDS = ("window of days starting at `base` (leap: 2024-02-28, newyear: 2023-12-30); start instant symbolic: "
+              "window day start_days[0]..start_days[1], time of day per `res` (h: any full hour; m: any minute of the hour "
+              "after noon; hm: any minute of the day; s: any second of the day); probe instant symbolic alike, 0..span days "
+              "later, not before the start; entry times of the schedule in the same resolution (s: minutes); effective period per `edge` relative to the window "
               "(none: 1900..2154; enter: begins on window day 1; exit: ends with window day 1; both: exactly window days 1..2); "
               "weekly schedule: one entry per weekday at a symbolic time of day (own time and value per weekday); one exception "
               "(priority 8) on window day 1: a value from a symbolic time until relinquished at a later symbolic time")
@@ -457,11 +480,12 @@ def sched_run(d, base, edge, res, start_days, span):
     ndays = start_days[1] + span + 3
     dates = [R.date_add(B, k) for k in range(ndays)]
     candidates = [b0 + k for k in range(ndays)]
-    unit = {'h': 3600, 'hm': 60, 's': 1}[res]
-    per_day = C.DAY // unit
-    t0 = b0 * C.DAY + unit * d.int(start_days[0] * per_day, (start_days[1] + 1) * per_day - 1, 'start')
-    probe = t0 + unit * d.int(0, span * per_day, 'probe_after')
-    tres = 'h' if res == 'h' else 'hm'
+    day_i = d.int(start_days[0], start_days[1], 'start_day')
+    t0 = (b0 + day_i) * C.DAY + draw_second_of_day(d, res, 'start_')
+    day_j = day_i + d.int(0, span, 'probe_days_later')
+    probe = (b0 + day_j) * C.DAY + draw_second_of_day(d, res, 'probe_')
+    d.assume(t0 <= probe)
+    tres = {'h': 'h', 'm': 'm'}.get(res, 'hm')
 
     # ---- configuration
     if edge == 'none':
@@ -516,22 +540,53 @@ def sched_run(d, base, edge, res, start_days, span):
     d.reach()
 
 
+def _ev(out, budget, **kw):
+    kw.setdefault('days', ['leapday'])
+    out.append(Inst(eval_ref, kw, budget=budget))
+
+
 def instances(tier):
     q = tier == "quick"
     out = []
-    B = 200
-    halves = [(1, 6), (7, 12)]
-    quarters = [(1, 3), (4, 6), (7, 9), (10, 12)]
-    for ms in halves:
-        out.append(Inst(match_date, dict(months=ms), budget=B))
-    for ms in quarters:
-        out.append(Inst(match_weeknday, dict(months=ms), budget=B))
     U, SP = 'unspecified', 'specific'
-    out.append(Inst(match_date_range, dict(start=U, end=U), budget=B))
-    for dow in ('right', 'any'):
-        out.append(Inst(match_date_range, dict(start=SP, end=U, dow=dow), budget=B))
-        out.append(Inst(match_date_range, dict(start=U, end=SP, dow=dow), budget=B))
-        out.append(Inst(match_date_range, dict(start=SP, end=SP, dow=dow), budget=B))
-    for c in ('date', 'dateRange', 'weekNDay'):
-        out.append(Inst(calendar_entry, dict(choice=c, maxday=28), budget=B))
+    A = ['leapday', 'sunday', 'monday']
+    P3 = [(1, 16), (16, 1), (8, 8)]
+    if q:
+        B = 90
+        # ---- matchers
+        for ms in [(1, 2), (3, 12)]:
+            out.append(Inst(match_date, dict(months=ms), budget=B))
+        for ms in [(1, 2), (3, 5), (6, 9), (10, 12)]:
+            out.append(Inst(match_weeknday, dict(months=ms), budget=B))
+        out.append(Inst(match_date_range, dict(start=U, end=U), budget=B))
+        out.append(Inst(match_date_range, dict(start=SP, end=U, dow='any'), budget=B))
+        out.append(Inst(match_date_range, dict(start=U, end=SP, dow='any'), budget=B))
+        out.append(Inst(match_date_range, dict(start=SP, end=SP, dow='right'), budget=B))
+        out.append(Inst(calendar_entry, dict(choice='date', maxday=28), budget=B))
+        out.append(Inst(calendar_entry, dict(choice='dateRange', maxday=28), budget=B))
+        for ms in [(1, 6), (7, 12)]:
+            out.append(Inst(calendar_entry, dict(choice='weekNDay', maxday=28, months=ms), budget=B))
+        # ---- eval: weekly list alone, on all three days
+        _ev(out, B, days=A, exc=[], nweek=None)
+        _ev(out, B, days=A, exc=[], nweek=2)
+        # one exception of each period kind, second instant free
+        for kind in ('date', 'range', 'wnd', 'calendar'):
+            _ev(out, B, exc=[(kind, 1)], nweek=1, prio=[(8,)], res='hm' if kind == 'date' else 'h')
+        # every priority
+        _ev(out, B, exc=[('dow', 1)], nweek=0, prio='sym', res='h', stale='breakpoints')
+        # two entries per list
+        _ev(out, B, exc=[('dow', 2)], nweek=2, prio=[(8,)], res='h', stale='breakpoints')
+        # two exceptions: priority order both ways and a tie
+        for pp in P3:
+            _ev(out, B, exc=[('dow', 1), ('dow', 1)], nweek=1, prio=[pp], res='h', stale='breakpoints')
+            _ev(out, B, exc=[('dow', 2), ('dow', 2)], nweek=0, prio=[pp], res='h', stale='breakpoints')
+        # effective period: both limits around the day, open-ended
+        for eff in ('days', 'open-start', 'open-end', 'open-both'):
+            _ev(out, B, exc=[], nweek=1, eff=eff)
+        # ---- the object on its own timer
+        for edge in ('none', 'enter', 'exit'):
+            out.append(Inst(sched_run, dict(base='leap', edge=edge, res='h', start_days=(0, 2), span=2), budget=B))
+        out.append(Inst(sched_run, dict(base='newyear', edge='none', res='h', start_days=(0, 1), span=2), budget=B))
+        out.append(Inst(sched_run, dict(base='leap', edge='none', res='m', start_days=(0, 2), span=2), budget=300))
+        return out
     return out
